@@ -61,6 +61,14 @@ type getter interface {
 	put(string)
 }
 
+type namer interface {
+	get() string
+}
+
+type putter interface {
+	put(string)
+}
+
 type impA struct{ v string }
 
 func (r *impA) get() string {
@@ -180,6 +188,8 @@ class Func:
     def newstr(self, d):              self.st("newstr", d=d)
     def fstore(self, p, f, x):        self.st("fstore", p=p, f=f, a=x)
     def fload(self, d, p, f):         self.st("fload", d=d, p=p, f=f)
+    def newimp(self, d, impl):        self.st("newimp", d=d, impl=impl)   # d = &impA{} (d of type *impA)
+    def toiface(self, d, x, ityp, impl): self.st("toiface", d=d, a=x, ityp=ityp, impl=impl)   # d = namer(x)
     def stlit(self, d, f, x):         self.st("stlit", d=d, f=f, a=x)     # d = box{f: x} (whole-value assignment)
     def store(self, p, x):            self.st("store", p=p, a=x)
     def load(self, d, p):             self.st("load", d=d, p=p)
@@ -558,6 +568,14 @@ class Prog:
                 f.ntmp += 1; t = "%%f%d" % f.ntmp
                 code.append(I("faddr", d=t, a=[p], s=s["f"]))
                 code.append(I("store", a=[t, a]))
+            elif k == "newimp":
+                d, post = self._def(f, code, s["d"])
+                ln = self._line("%s%s = &%s{}" % (tab, s["d"], s["impl"]))
+                code.append(I("new", d=d, s=s["impl"], n=ln)); post()
+            elif k == "toiface":
+                a = self._use(f, code, s["a"]); d, post = self._def(f, code, s["d"])
+                self._line("%s%s = %s(%s)" % (tab, s["d"], s["ityp"], s["a"]))
+                code.append(I("box", d=d, a=[a], s="*" + s["impl"])); post()
             elif k == "stlit":
                 a = self._use(f, code, s["a"]); d, post = self._def(f, code, s["d"])
                 self._line("%s%s = box{%s: %s}" % (tab, s["d"], s["f"], s["a"]))
